@@ -1242,6 +1242,7 @@ func genC02(c *Ctx) {
 		}
 		c.Emit("c02.diag", c02DiagCase(text, normJ(truth), dom))
 	}
+	genC02Sessions(c)
 }
 
 func genC20(c *Ctx) {
